@@ -1,13 +1,571 @@
-//! C02 — not yet implemented
-use crate::core::{Ctx, Outcome};
-use serde_json::Value;
+//! C02 — Position size and realised PnL conserve the cash flows of the fills.
+//!
+//! E-SEQ: every sequence of fills of length <= d over a 36-symbol alphabet
+//! (side{Buy,Sell} x qty{1,2,3} x price{90,100,110} x fee{0,0.3}, fresh trade id per fill), executed
+//! step by step against the REAL code, in two layers:
+//!   * `pm`     : `PositionManager::update_from_trade` directly (deepest bound),
+//!   * `engine` : `Engine::process(EngineEvent::Account(Item(Trade)))` on a 2-instrument engine; the
+//!                closed-position record compared is the `EngineOutput::PositionExit` of the audit
+//!                and the open position is read from `EngineState.instruments[i].position.current`.
+//! Each layer is repeated for several magnitude variants (quantities x1e-8, prices x1e8, mixed ...)
+//! to exercise decimal scale ("tiny and huge magnitudes"), and once more with a narrow 16-symbol
+//! alphabet (qty{1,2} x price{100,110} x fee{0,0.3}) to a deeper bound (`pm-narrow`, `engine-narrow`).
+//! Bounds (max sequence length) quick / thorough: pm 4/5 (magnitude variants 4/4), pm-narrow 6/7,
+//! engine 3/4, engine-narrow 4/5.
+//!
+//! The oracle is a cash-flow ledger computed from the fills only (never from the implementation):
+//! net signed quantity, sum of sell proceeds, sum of buy cost, sum of fees. Rules (each one is a
+//! sentence of the statement):
+//!   R1 open-position-matches-net : side/size of the open position == sign/|net|; no position iff net == 0
+//!   R2 closed-record-iff-reach-or-cross-zero : a PositionExited is emitted exactly on those fills
+//!   R3 flip-prorata-fee : a crossing fill opens the opposite position (R1: remainder) carrying
+//!      fee * remainder / quantity of the fill's fee
+//!   R4 pnl-conservation : sum(closed.pnl_realised) + open.pnl_realised
+//!                          == proceeds - cost - fees + signed open qty * open.price_entry_average  (+- rounding)
+//!   R5 fees-conservation : sum over all positions (fees_enter + fees_exit) == sum of fill fees (+- rounding)
+//!   R6 fill-ids : the fill id is recorded against exactly the position(s) the fill affected (the one
+//!      it modified / closed and the one it opened)
+//! R4/R5/R6 are evaluated incrementally (the residual of the identity must not change on a step) so a
+//! defect is reported on the step that introduces it and is named after that step's kind
+//! (open / increase / reduce / close / flip); R1 re-synchronises the ledger to the implementation after
+//! a report. `quantity_abs_max`, `price_entry_average` by itself, timestamps and `pnl_unrealised` are
+//! NOT judged here: the statement does not constrain them (any cost-basis method that satisfies R4 is
+//! accepted).
 
-pub fn run(_ctx: &Ctx) -> Outcome {
-    eprintln!("MACHINERY: C02 not implemented");
-    std::process::exit(2)
+use super::common::*;
+use crate::core::{Ctx, Outcome, hash_of};
+use crate::explore::seq::{self, SeqModel, Viol};
+use barter::{
+    EngineEvent,
+    engine::{
+        Engine, EngineOutput, Processor,
+        audit::EngineAudit,
+        execution_tx::MultiExchangeTxMap,
+        state::{
+            position::{Position, PositionExited, PositionManager},
+            trading::TradingState,
+        },
+    },
+    execution::AccountStreamEvent,
+};
+use barter_execution::{
+    AccountEvent, AccountEventKind,
+    order::id::OrderId,
+    trade::{AssetFees, Trade, TradeId},
+};
+use barter_instrument::{
+    Side, asset::QuoteAsset, exchange::ExchangeIndex, index::IndexedInstruments,
+    instrument::InstrumentIndex,
+};
+use rust_decimal::Decimal;
+use rust_decimal_macros::dec;
+use serde::{Deserialize, Serialize};
+use serde_json::{Value, json};
+use std::{
+    panic::{AssertUnwindSafe, catch_unwind},
+    sync::atomic::{AtomicU64, Ordering},
+};
+
+const QTY: [Decimal; 3] = [dec!(1), dec!(2), dec!(3)];
+const PRICE: [Decimal; 3] = [dec!(90), dec!(100), dec!(110)];
+const FEE: [Decimal; 2] = [dec!(0), dec!(0.3)];
+
+/// relative / absolute tolerance for "up to decimal rounding" (Decimal: 28 significant digits, scale <= 28)
+const REL_TOL: Decimal = dec!(0.000000000000000001); // 1e-18 of the gross cash flow so far
+const ABS_TOL: Decimal = dec!(0.000000000000000000000001); // 1e-24
+
+/// One alphabet symbol: indices into QTY / PRICE / FEE.
+#[derive(Debug, Clone, Copy, PartialEq, Eq, Hash, Serialize, Deserialize)]
+pub struct Fill {
+    pub buy: bool,
+    pub q: u8,
+    pub p: u8,
+    pub f: u8,
 }
 
-pub fn replay(_ctx: &Ctx, _case: &Value) {
-    eprintln!("MACHINERY: C02 not implemented");
-    std::process::exit(2)
+/// Magnitude variant: every quantity is multiplied by `q`, every price by `p`, every fee by `q*p`.
+#[derive(Debug, Clone, Copy)]
+pub struct Scale {
+    pub name: &'static str,
+    pub q: Decimal,
+    pub p: Decimal,
+}
+pub const SCALES: [Scale; 5] = [
+    Scale { name: "unit", q: dec!(1), p: dec!(1) },
+    Scale { name: "tiny-qty", q: dec!(0.00000001), p: dec!(1) },
+    Scale { name: "huge-price", q: dec!(1), p: dec!(100000000) },
+    Scale { name: "tiny-qty-huge-price", q: dec!(0.00000001), p: dec!(100000000) },
+    Scale { name: "huge-qty-tiny-price", q: dec!(100000000), p: dec!(0.00000001) },
+];
+
+#[derive(Debug, Clone, Copy, PartialEq, Eq)]
+enum Arm {
+    Open,
+    Increase,
+    Reduce,
+    Close,
+    Flip,
+}
+impl Arm {
+    fn name(self) -> &'static str {
+        ["open", "increase", "reduce", "close", "flip"][self as usize]
+    }
+}
+
+/// The engine is not `Clone` (its tx map is not); clone it field by field.
+pub struct Eng(pub SEngine);
+impl Clone for Eng {
+    fn clone(&self) -> Self {
+        let e = &self.0;
+        Eng(Engine {
+            clock: e.clock.clone(),
+            meta: e.meta,
+            state: e.state.clone(),
+            execution_txs: MultiExchangeTxMap::from_iter(
+                (&e.execution_txs).into_iter().map(|(x, tx)| (*x, tx.clone())),
+            ),
+            strategy: e.strategy.clone(),
+            risk: e.risk.clone(),
+        })
+    }
+}
+
+#[derive(Clone)]
+enum Subject {
+    Pm(PositionManager<InstrumentIndex>),
+    Engine(Box<Eng>),
+}
+
+/// Ledger of the fills (reference) + the running sums over the emitted closed-position records.
+#[derive(Clone, Default)]
+struct Ledger {
+    net: Decimal,
+    proceeds: Decimal,
+    cost: Decimal,
+    fees: Decimal,
+    closed_pnl: Decimal,
+    closed_fees: Decimal,
+    closed_records: u32,
+    /// residuals of R4 / R5 after the previous step (0 as long as the identities hold)
+    resid_pnl: Decimal,
+    resid_fee: Decimal,
+}
+
+#[derive(Clone)]
+pub struct St {
+    subject: Subject,
+    ledger: Ledger,
+    dead: bool,
+}
+
+pub struct M {
+    engine_layer: bool,
+    /// narrow alphabet (qty{1,2} x price{100,110} x fee{0,0.3} = 16 symbols) for the deeper bound
+    narrow: bool,
+    scale: Scale,
+    instruments: IndexedInstruments,
+    instrument: InstrumentIndex,
+    arms: [AtomicU64; 5],
+    closed_seen: AtomicU64,
+}
+
+impl M {
+    pub fn new(engine_layer: bool, narrow: bool, scale: Scale) -> Self {
+        let instruments = IndexedInstruments::builder()
+            .add_instrument(spot(EXCHANGES[0], "i0", "I0", "btc", "usdt"))
+            .add_instrument(spot(EXCHANGES[0], "i1", "I1", "eth", "usdt"))
+            .build();
+        Self {
+            engine_layer,
+            narrow,
+            scale,
+            instruments,
+            // the second instrument, so that index != 0
+            instrument: InstrumentIndex(1),
+            arms: Default::default(),
+            closed_seen: AtomicU64::new(0),
+        }
+    }
+    pub fn label(&self) -> String {
+        format!(
+            "{}{}/{}",
+            if self.engine_layer { "engine" } else { "pm" },
+            if self.narrow { "-narrow" } else { "" },
+            self.scale.name
+        )
+    }
+    pub fn from_label(label: &str) -> Self {
+        let (layer, scale) = label.split_once('/').unwrap_or(("pm", "unit"));
+        let scale = SCALES.iter().copied().find(|s| s.name == scale).unwrap_or(SCALES[0]);
+        Self::new(layer.starts_with("engine"), layer.ends_with("-narrow"), scale)
+    }
+
+    fn trade(&self, f: &Fill, n: usize) -> Trade<QuoteAsset, InstrumentIndex> {
+        let q = QTY[f.q as usize] * self.scale.q;
+        let p = PRICE[f.p as usize] * self.scale.p;
+        let fee = FEE[f.f as usize] * self.scale.q * self.scale.p;
+        Trade {
+            id: TradeId::new(format!("f{n}")),
+            order_id: OrderId::new("o"),
+            instrument: self.instrument,
+            strategy: strategy_id(),
+            time_exchange: t_plus(n as i64),
+            side: if f.buy { Side::Buy } else { Side::Sell },
+            price: p,
+            quantity: q,
+            fees: AssetFees::quote_fees(fee),
+        }
+    }
+
+    /// Apply the fill to the real code; returns the emitted closed records.
+    fn apply(
+        &self,
+        subject: &mut Subject,
+        trade: &Trade<QuoteAsset, InstrumentIndex>,
+    ) -> Vec<PositionExited<QuoteAsset, InstrumentIndex>> {
+        match subject {
+            Subject::Pm(pm) => pm.update_from_trade(trade).into_iter().collect(),
+            Subject::Engine(e) => {
+                let event: Event = EngineEvent::Account(AccountStreamEvent::Item(AccountEvent {
+                    exchange: ExchangeIndex(0),
+                    kind: AccountEventKind::Trade(trade.clone()),
+                }));
+                match e.0.process(event) {
+                    EngineAudit::Process(p) => p
+                        .outputs
+                        .iter()
+                        .filter_map(|o| match o {
+                            EngineOutput::PositionExit(pe) => Some(pe.clone()),
+                            _ => None,
+                        })
+                        .collect(),
+                    EngineAudit::FeedEnded => vec![],
+                }
+            }
+        }
+    }
+}
+
+fn current<'a>(subject: &'a Subject, i: &InstrumentIndex) -> Option<&'a Position<QuoteAsset, InstrumentIndex>> {
+    match subject {
+        Subject::Pm(pm) => pm.current.as_ref(),
+        Subject::Engine(e) => e.0.state.instruments.instrument_index(i).position.current.as_ref(),
+    }
+}
+
+fn signed_qty(p: &Position<QuoteAsset, InstrumentIndex>) -> Decimal {
+    match p.side {
+        Side::Buy => p.quantity_abs,
+        Side::Sell => -p.quantity_abs,
+    }
+}
+
+impl SeqModel for M {
+    type State = St;
+    type Sym = Fill;
+
+    fn init(&self) -> St {
+        let subject = if self.engine_layer {
+            let (engine, _links) = build_engine(&self.instruments, TradingState::Disabled, &[]);
+            Subject::Engine(Box::new(Eng(engine)))
+        } else {
+            Subject::Pm(PositionManager::default())
+        };
+        St { subject, ledger: Ledger::default(), dead: false }
+    }
+
+    fn alphabet(&self, s: &St, _hist: &[Fill]) -> Vec<Fill> {
+        if s.dead {
+            return vec![];
+        }
+        let mut v = Vec::with_capacity(36);
+        // simplest first: fee 0, qty 1
+        let (qs, ps) = if self.narrow { (0..2u8, 1..3u8) } else { (0..3u8, 0..3u8) };
+        for f in 0..FEE.len() as u8 {
+            for q in qs.clone() {
+                for p in ps.clone() {
+                    for buy in [true, false] {
+                        v.push(Fill { buy, q, p, f });
+                    }
+                }
+            }
+        }
+        v
+    }
+
+    fn step(&self, s: &mut St, sym: &Fill, hist: &[Fill], out: &mut Vec<Viol>) {
+        let trade = self.trade(sym, hist.len());
+        let (q, price, fee) = (trade.quantity, trade.price, trade.fees.fees);
+        let signed = if sym.buy { q } else { -q };
+
+        // ---- reference ledger (from the fills only)
+        let l = &mut s.ledger;
+        let net0 = l.net;
+        let net1 = net0 + signed;
+        let arm = if net0.is_zero() {
+            Arm::Open
+        } else if net0.is_sign_negative() == signed.is_sign_negative() {
+            Arm::Increase
+        } else if q < net0.abs() {
+            Arm::Reduce
+        } else if q == net0.abs() {
+            Arm::Close
+        } else {
+            Arm::Flip
+        };
+        self.arms[arm as usize].fetch_add(1, Ordering::Relaxed);
+        l.net = net1;
+        if sym.buy {
+            l.cost += price * q;
+        } else {
+            l.proceeds += price * q;
+        }
+        l.fees += fee;
+        let tol = (l.proceeds + l.cost + l.fees) * REL_TOL + ABS_TOL;
+        let a = arm.name();
+
+        // ---- the real code
+        let before_ids: Vec<TradeId> =
+            current(&s.subject, &self.instrument).map(|p| p.trades.clone()).unwrap_or_default();
+        let subject = &mut s.subject;
+        let closed = match catch_unwind(AssertUnwindSafe(|| self.apply(subject, &trade))) {
+            Ok(c) => c,
+            Err(_) => {
+                out.push((format!("C02/panic/{a}"), format!("the position code panicked on fill {trade:?}")));
+                s.dead = true;
+                return;
+            }
+        };
+        let cur = current(&s.subject, &self.instrument);
+        self.closed_seen.fetch_add(closed.len() as u64, Ordering::Relaxed);
+
+        // ---- R2: a closed record exactly when net reaches or crosses zero
+        let expect_closed = matches!(arm, Arm::Close | Arm::Flip);
+        let closed_ok = closed.len() == expect_closed as usize;
+        if !closed_ok {
+            let cause = match (closed.len(), expect_closed) {
+                (0, true) => "record-missing",
+                (1, false) => "record-emitted-without-reaching-zero",
+                _ => "more-than-one-record",
+            };
+            out.push((
+                format!("C02/closed-record-iff-reach-or-cross-zero/{a}/{cause}"),
+                format!("net {net0} -> {net1} after {trade:?}: {} closed record(s) emitted, expected {}", closed.len(), expect_closed as usize),
+            ));
+        }
+
+        // ---- R1: open position == sign / magnitude of net
+        let mut r1_ok = true;
+        match (net1.is_zero(), cur) {
+            (true, Some(p)) => {
+                r1_ok = false;
+                out.push((
+                    format!("C02/open-position-matches-net/{a}/position-left-open-at-zero-net"),
+                    format!("net {net0} -> 0 but a position stays open: {:?} {}", p.side, p.quantity_abs),
+                ));
+            }
+            (false, None) => {
+                r1_ok = false;
+                out.push((
+                    format!("C02/open-position-matches-net/{a}/no-position-for-nonzero-net"),
+                    format!("net {net0} -> {net1} but no position is open"),
+                ));
+            }
+            (false, Some(p)) => {
+                let got = signed_qty(p);
+                if got != net1 {
+                    r1_ok = false;
+                    let cause = if got.is_sign_negative() != net1.is_sign_negative() { "side-wrong" } else { "size-wrong" };
+                    out.push((
+                        format!("C02/open-position-matches-net/{a}/{cause}"),
+                        format!("net {net0} -> {net1} but the open position is {:?} {}", p.side, p.quantity_abs),
+                    ));
+                }
+            }
+            (true, None) => {}
+        }
+
+        // ---- R3: the position opened by a crossing fill carries fee * remainder / qty
+        if let (Arm::Flip, Some(p), true) = (arm, cur, r1_ok) {
+            let share = fee * net1.abs() / q;
+            let got = p.fees_enter.fees + p.fees_exit.fees;
+            if (got - share).abs() > tol {
+                out.push((
+                    "C02/flip-prorata-fee/new-position-fee-share".to_string(),
+                    format!("fill {trade:?} crossed {net0} -> {net1}: the new position carries fees {got}, pro-rata share is {share}"),
+                ));
+            }
+        }
+
+        // ---- R4 / R5: conservation (incremental: the residual must not move)
+        for c in &closed {
+            l.closed_pnl += c.pnl_realised;
+            l.closed_fees += c.fees_enter.fees + c.fees_exit.fees;
+            l.closed_records += 1;
+        }
+        let (open_pnl, open_val, open_fees) = match cur {
+            Some(p) => (p.pnl_realised, signed_qty(p) * p.price_entry_average, p.fees_enter.fees + p.fees_exit.fees),
+            None => (Decimal::ZERO, Decimal::ZERO, Decimal::ZERO),
+        };
+        let resid = (l.closed_pnl + open_pnl) - (l.proceeds - l.cost - l.fees + open_val);
+        if (resid - l.resid_pnl).abs() > tol {
+            out.push((
+                format!("C02/pnl-conservation/{a}"),
+                format!(
+                    "after {trade:?} (net {net0} -> {net1}): sum closed pnl {} + open pnl {open_pnl} differs from proceeds {} - cost {} - fees {} + open value {open_val} by {resid} (was {} before this fill)",
+                    l.closed_pnl, l.proceeds, l.cost, l.fees, l.resid_pnl
+                ),
+            ));
+        }
+        l.resid_pnl = resid;
+        let resid_fee = l.closed_fees + open_fees - l.fees;
+        if (resid_fee - l.resid_fee).abs() > tol {
+            out.push((
+                format!("C02/fees-conservation/{a}"),
+                format!(
+                    "after {trade:?} (net {net0} -> {net1}): fees of closed positions {} + open position {open_fees} differ from the fees of the fills {} by {resid_fee} (was {} before this fill)",
+                    l.closed_fees, l.fees, l.resid_fee
+                ),
+            ));
+        }
+        l.resid_fee = resid_fee;
+
+        // ---- R6: the fill id is recorded against the positions it affected, and only those
+        // (as sets; `before_ids` = the ids the open position listed before this fill)
+        let mut ids_check = |what: &str, got: &[TradeId], with_before: bool| {
+            let wanted = |x: &TradeId| *x == trade.id || (with_before && before_ids.contains(x));
+            let has_id = got.contains(&trade.id);
+            let foreign = got.iter().any(|x| !wanted(x));
+            let lost = with_before && before_ids.iter().any(|x| !got.contains(x));
+            if !has_id || foreign || lost {
+                let cause = if !has_id {
+                    "fill-id-missing"
+                } else if foreign {
+                    "foreign-fill-id-recorded"
+                } else {
+                    "earlier-fill-id-lost"
+                };
+                out.push((
+                    format!("C02/fill-ids/{a}/{what}/{cause}"),
+                    format!(
+                        "after {trade:?}: {what} lists {got:?}; expected exactly {:?} + the ids it listed before {:?}",
+                        trade.id,
+                        if with_before { &before_ids[..] } else { &[] }
+                    ),
+                ));
+            }
+        };
+        if closed_ok && r1_ok {
+            match arm {
+                Arm::Open => ids_check("opened-position", &cur.unwrap().trades, false),
+                Arm::Increase | Arm::Reduce => ids_check("open-position", &cur.unwrap().trades, true),
+                Arm::Close => ids_check("closed-record", &closed[0].trades, true),
+                Arm::Flip => {
+                    ids_check("closed-record", &closed[0].trades, true);
+                    ids_check("opened-position", &cur.unwrap().trades, false);
+                }
+            }
+        }
+
+        // re-synchronise the ledger with the implementation after an R1 report (no cascades)
+        if !r1_ok {
+            l.net = cur.map(signed_qty).unwrap_or(Decimal::ZERO);
+        }
+    }
+
+    fn final_hash(&self, s: &St) -> u64 {
+        let l = &s.ledger;
+        match current(&s.subject, &self.instrument) {
+            Some(p) => hash_of(&(
+                p.side == Side::Buy,
+                p.quantity_abs,
+                p.quantity_abs_max,
+                p.price_entry_average,
+                p.pnl_realised,
+                p.pnl_unrealised,
+                p.fees_enter.fees,
+                p.fees_exit.fees,
+                p.trades.len(),
+                l.closed_records,
+                l.closed_pnl,
+            )),
+            None => hash_of(&(l.closed_records, l.closed_pnl, l.closed_fees)),
+        }
+    }
+}
+
+pub fn run(ctx: &Ctx) -> Outcome {
+    // (engine layer?, narrow alphabet?, scale, depth)
+    let mut plan: Vec<(bool, bool, Scale, usize)> = Vec::new();
+    let (pm_full, pm_narrow, eng_full, eng_narrow) = ctx.tier.pick((4, 6, 3, 4), (5, 7, 4, 5));
+    for (k, sc) in SCALES.iter().enumerate() {
+        // the magnitude variants do not need the deepest bound
+        plan.push((false, false, *sc, if k == 0 { pm_full } else { pm_full.min(4) }));
+    }
+    plan.push((false, true, SCALES[0], pm_narrow));
+    for sc in SCALES.iter() {
+        plan.push((true, false, *sc, eng_full));
+    }
+    plan.push((true, true, SCALES[0], eng_narrow));
+
+    let mut evaluations = 0u64;
+    let mut sequences = 0u64;
+    let mut distinct = 0usize;
+    let mut per_cfg = Vec::new();
+    let mut arms_total = [0u64; 5];
+    let mut closed_total = 0u64;
+    for (engine_layer, narrow, scale, depth) in plan {
+        let m = M::new(engine_layer, narrow, scale);
+        let st = seq::run(ctx, &m, &m.label(), depth);
+        evaluations += st.steps;
+        sequences += st.sequences;
+        distinct += st.distinct_final;
+        let arms: Vec<u64> = m.arms.iter().map(|a| a.load(Ordering::Relaxed)).collect();
+        for (t, a) in arms_total.iter_mut().zip(&arms) {
+            *t += a;
+        }
+        let closed = m.closed_seen.load(Ordering::Relaxed);
+        closed_total += closed;
+        per_cfg.push(json!({
+            "label": m.label(), "max_len": depth, "sequences": st.sequences, "steps": st.steps,
+            "distinct_final_states": st.distinct_final,
+            "steps_by_kind": {"open": arms[0], "increase": arms[1], "reduce": arms[2], "close": arms[3], "flip": arms[4]},
+            "closed_records_emitted": closed,
+        }));
+    }
+    // non-vacuity: every kind of fill must have been exercised
+    if arms_total.iter().any(|n| *n == 0) || closed_total == 0 {
+        eprintln!("MACHINERY: C02 exploration is vacuous (a kind of fill was never reached): {arms_total:?}");
+        std::process::exit(2);
+    }
+    let samples = vec![
+        json!({"label": "pm/unit", "seq": [Fill{buy:true,q:1,p:1,f:1}, Fill{buy:false,q:0,p:2,f:1}, Fill{buy:false,q:2,p:0,f:1}, Fill{buy:true,q:1,p:1,f:0}]}),
+        json!({"label": "engine/unit", "seq": [Fill{buy:false,q:2,p:2,f:1}, Fill{buy:true,q:0,p:0,f:0}, Fill{buy:true,q:2,p:1,f:1}]}),
+    ];
+    Outcome {
+        level: "exploration",
+        coverage: json!({
+            "evaluations": evaluations,
+            "sequences": sequences,
+            "distinct_nontrivial": distinct,
+            "exhaustive": true,
+            "rule": "all fill sequences of length <= max_len over side{Buy,Sell} x qty{1,2,3} x price{90,100,110} x fee{0,0.3} (36 symbols; '-narrow' configurations: qty{1,2} x price{100,110} = 16 symbols, deeper; fresh trade id per fill), per layer (PositionManager::update_from_trade / Engine::process of an account Trade) and magnitude variant; ledger oracle R1..R6 evaluated after every fill",
+            "steps_by_kind": {"open": arms_total[0], "increase": arms_total[1], "reduce": arms_total[2], "close": arms_total[3], "flip": arms_total[4]},
+            "closed_records_emitted": closed_total,
+            "per_configuration": per_cfg,
+            "samples": samples,
+        }),
+        assumptions: vec![
+            "fills are on one instrument, price > 0, quantity > 0, fee >= 0 in the quote asset, fresh trade id per fill".into(),
+            "value alphabets avoid Decimal overflow; 'up to decimal rounding' = 1e-18 of the gross cash flow + 1e-24 per fill".into(),
+            "quantity_abs_max, timestamps and the cost-basis method itself are not constrained by the statement and are not judged".into(),
+        ],
+    }
+}
+
+pub fn replay(ctx: &Ctx, case: &Value) {
+    let m = M::from_label(case["label"].as_str().unwrap_or("pm/unit"));
+    for (sig, detail) in seq::replay(&m, case) {
+        ctx.violate(sig, detail, case.clone());
+    }
 }
